@@ -14,6 +14,7 @@ inductive Op
   | execute
   | restart
   | install (idx height : Nat)     -- raft hands over a snapshot; catch-up through the syncer
+  | hardState (t v c : Nat)        -- a Ready without entries or snapshot: a higher term seen, a vote granted
 deriving Repr
 
 structure Sys where
@@ -32,6 +33,7 @@ def step (s : Sys) : Op → Sys
     | (n', none) => { s with n := n' }
   | .restart => { s with n := (restart s.n s.ledger).1 }
   | .install idx height => { s with n := installSnap s.n idx height s.ledger }
+  | .hardState t v c => { s with n := setHardState s.n t v c }
 
 def run (s : Sys) (ops : List Op) : Sys := ops.foldl step s
 
@@ -133,6 +135,7 @@ theorem step_inv (l0 : Nat) (s : Sys) (op : Op) (h : Inv l0 s) : Inv l0 (step s 
   | report x => exact ⟨report_good _ _ _ hg, hle, hd⟩
   | restart => exact ⟨restart_good _ _, hle, hd⟩
   | install idx height => exact ⟨installSnap_good _ _ _ _ _ hg, hle, hd⟩
+  | hardState t v c => exact ⟨hg, hle, hd⟩
   | execute =>
     simp only [step]
     generalize he : execute s.n = r
